@@ -417,3 +417,4 @@ class IffID3(ID3):
         except KeyError:
             pass
         self.clear()
+        self.unknown_frames = []
